@@ -182,6 +182,10 @@ pub struct C04Case {
     /// the older header slot of the base file is torn (what a crash inside a header write leaves):
     /// every commit of the chain that targets it has to replace it without touching the other one
     pub torn_base: bool,
+    /// C10 supplement: before the threads start, a bucket of 80 entries is committed, deleted and its
+    /// pages released, so that the free list holds far more pages than the whole run allocates: the
+    /// page high-water mark must not move, whatever the schedule
+    pub free_base: bool,
     /// staged case (two readers, six commits): reader 1 begins after commit 2; reader 0 (begun on
     /// the base state) looks again and ends after commit 4 (so two writers begin while both readers
     /// are open); the writer makes commits 5 and 6 only after that; reader 1 looks again after the last commit.  The waits are blocking (no preemption is
@@ -250,6 +254,37 @@ pub fn c04_run(case: &C04Case, base: &Base, path: &str, prefix: &[u8], policy: R
             return (ExecResult { points: vec![], deadlock: None, diverged: Some(format!("cannot open base: {:?}", other.map(|r| r.map(|_| ())))), panics: vec![] }, vec![], String::new());
         }
     };
+    let mut page_budget: Option<u64> = None;
+    if case.free_base {
+        let r = real::guarded(|| -> Result<(), String> {
+            let tx = db.tx(true).map_err(|e| format!("{:?}", e))?;
+            let pad = tx.create_bucket("pad").map_err(|e| format!("{:?}", e))?;
+            for i in 0..80 {
+                pad.put(format!("pad{:03}", i), vec![b'p'; 300]).map_err(|e| format!("{:?}", e))?;
+            }
+            drop(pad);
+            tx.commit().map_err(|e| format!("{:?}", e))?;
+            let tx = db.tx(true).map_err(|e| format!("{:?}", e))?;
+            tx.delete_bucket("pad").map_err(|e| format!("{:?}", e))?;
+            tx.commit().map_err(|e| format!("{:?}", e))?;
+            // two writable transactions committed without a change: the pages of the deleted bucket
+            // are released (no reader is open) and recorded as free
+            for _ in 0..2 {
+                db.tx(true).map_err(|e| format!("{:?}", e))?.commit().map_err(|e| format!("{:?}", e))?;
+            }
+            Ok(())
+        });
+        if !matches!(r, Ok(Ok(()))) {
+            return (ExecResult { points: vec![], deadlock: None, diverged: Some(format!("cannot prepare the base with a long free list: {:?}", r)), panics: vec![] }, vec![], String::new());
+        }
+        let bytes = crate::runner::read_db_file(path, base.cfg.pagesize);
+        match crate::fileck::check(&bytes, base.cfg.pagesize) {
+            Ok(rep) if rep.free.len() >= 40 => page_budget = Some(rep.num_pages),
+            other => {
+                return (ExecResult { points: vec![], deadlock: None, diverged: Some(format!("the prepared base does not have the long free list it should have: {:?}", other.map(|r| r.free.len()))), panics: vec![] }, vec![], String::new());
+            }
+        }
+    }
     let all_specs = case.bodies_specs();
     // the commit whose header write fails is attempted by the writer but is in no committed state
     let specs: Vec<Vec<OpSpec>> = all_specs.iter().enumerate().filter(|(i, _)| Some(*i) != case.header_fault).map(|(_, s)| s.clone()).collect();
@@ -461,6 +496,15 @@ pub fn c04_run(case: &C04Case, base: &Base, path: &str, prefix: &[u8], policy: R
             }
             other => js.push(Judgement { class: "final_state".into(), detail: format!("cannot reopen after the run: {:?}", other.map(|x| x.map(|_| ()))) }),
         }
+        if let Some(budget) = page_budget {
+            let bytes = crate::runner::read_db_file(path, base.cfg.pagesize);
+            if let Ok(rep) = crate::fileck::check(&bytes, base.cfg.pagesize) {
+                outcome.push_str(&format!("pages{};", rep.num_pages));
+                if rep.num_pages > budget {
+                    js.push(Judgement { class: "grew_despite_free_pages".into(), detail: format!("the run started with more than 40 free pages below the high-water mark {} and allocates far fewer, yet the file now has {} pages: a writer took pages from the end of the file instead of the free list", budget, rep.num_pages) });
+                }
+            }
+        }
     }
     (res, js, outcome)
 }
@@ -471,65 +515,65 @@ fn c04_cases(tier: Tier) -> Vec<(C04Case, usize)> {
     // every chain of two commits x one reader
     for a in 0..nm {
         for b in 0..nm {
-            v.push((C04Case { torn_base: false, legacy_base: false, readers_wait: false, fsync_fault2: None, header_fault: None, second: vec![], fsync_fault: None, chain: vec![a, b], readers: 1, dumps: 2 }, if tier == Tier::Quick { 2 } else { 3 }));
+            v.push((C04Case { free_base: false, torn_base: false, legacy_base: false, readers_wait: false, fsync_fault2: None, header_fault: None, second: vec![], fsync_fault: None, chain: vec![a, b], readers: 1, dumps: 2 }, if tier == Tier::Quick { 2 } else { 3 }));
         }
     }
     // chains of three commits against one reader at two preemptions: a reader that begins in the
     // middle of the first commit and stays open across the next two
     if tier == Tier::Quick {
         for chain in [vec![0, 3, 5], vec![5, 2, 3], vec![1, 0, 2], vec![2, 5, 3]] {
-            v.push((C04Case { torn_base: false, legacy_base: false, readers_wait: false, fsync_fault2: None, header_fault: None, second: vec![], fsync_fault: None, chain, readers: 1, dumps: 2 }, 2));
+            v.push((C04Case { free_base: false, torn_base: false, legacy_base: false, readers_wait: false, fsync_fault2: None, header_fault: None, second: vec![], fsync_fault: None, chain, readers: 1, dumps: 2 }, 2));
         }
     }
     // a commit whose final sync fails in the middle of the chain, with a reader around
     for (chain, at) in [(vec![0, 3, 5], 0usize), (vec![5, 2, 3], 1), (vec![1, 0, 2], 0)] {
-        v.push((C04Case { torn_base: false, legacy_base: false, readers_wait: false, fsync_fault2: None, header_fault: None, second: vec![], fsync_fault: Some(at), chain, readers: 1, dumps: 2 }, 2));
+        v.push((C04Case { free_base: false, torn_base: false, legacy_base: false, readers_wait: false, fsync_fault2: None, header_fault: None, second: vec![], fsync_fault: Some(at), chain, readers: 1, dumps: 2 }, 2));
     }
     // two writer threads (commuting chains) and a reader: a writer that begins while the other is
     // still inside its commit
     for (chain, second) in [(vec![0, 2], vec![3]), (vec![5, 1], vec![4]), (vec![3], vec![2, 5])] {
-        v.push((C04Case { torn_base: false, legacy_base: false, readers_wait: false, fsync_fault2: None, header_fault: None, second, fsync_fault: None, chain, readers: 1, dumps: 2 }, 2));
+        v.push((C04Case { free_base: false, torn_base: false, legacy_base: false, readers_wait: false, fsync_fault2: None, header_fault: None, second, fsync_fault: None, chain, readers: 1, dumps: 2 }, 2));
     }
     // a legacy-format file: the upgrade commit and the one after it against a reader
     for chain in [vec![0, 3], vec![5, 1, 0]] {
-        v.push((C04Case { torn_base: false, legacy_base: true, readers_wait: false, fsync_fault2: None, header_fault: None, second: vec![], fsync_fault: None, chain, readers: 1, dumps: 2 }, 2));
+        v.push((C04Case { free_base: false, torn_base: false, legacy_base: true, readers_wait: false, fsync_fault2: None, header_fault: None, second: vec![], fsync_fault: None, chain, readers: 1, dumps: 2 }, 2));
     }
     // two failing final syncs in a row with a reader beginning in between and staying
     // the base file has one torn header slot: the first commit replaces it while a reader begins
     for chain in [vec![0, 1], vec![3, 5, 0]] {
-        v.push((C04Case { torn_base: true, legacy_base: false, readers_wait: false, fsync_fault2: None, header_fault: None, second: vec![], fsync_fault: None, chain, readers: 1, dumps: 2 }, 2));
+        v.push((C04Case { free_base: false, torn_base: true, legacy_base: false, readers_wait: false, fsync_fault2: None, header_fault: None, second: vec![], fsync_fault: None, chain, readers: 1, dumps: 2 }, 2));
     }
-    v.push((C04Case { torn_base: false, legacy_base: false, readers_wait: false, fsync_fault2: Some(1), header_fault: None, second: vec![], fsync_fault: Some(0), chain: vec![0, 1, 0, 1], readers: 1, dumps: 2 }, 2));
+    v.push((C04Case { free_base: false, torn_base: false, legacy_base: false, readers_wait: false, fsync_fault2: Some(1), header_fault: None, second: vec![], fsync_fault: Some(0), chain: vec![0, 1, 0, 1], readers: 1, dumps: 2 }, 2));
     // two commits in a row whose final sync fails; a commit whose header write fails followed by
     // different commits
     for (chain, f1, f2) in [(vec![0, 3, 5, 2], 0usize, 1usize), (vec![5, 2, 3, 0], 1, 2)] {
-        v.push((C04Case { torn_base: false, legacy_base: false, readers_wait: false, fsync_fault2: Some(f2), header_fault: None, second: vec![], fsync_fault: Some(f1), chain, readers: 1, dumps: 2 }, if tier == Tier::Quick { 1 } else { 2 }));
+        v.push((C04Case { free_base: false, torn_base: false, legacy_base: false, readers_wait: false, fsync_fault2: Some(f2), header_fault: None, second: vec![], fsync_fault: Some(f1), chain, readers: 1, dumps: 2 }, if tier == Tier::Quick { 1 } else { 2 }));
     }
     for (chain, h) in [(vec![5, 0, 2, 3], 0usize), (vec![0, 3, 5, 2], 1), (vec![2, 5, 1, 3], 0)] {
-        v.push((C04Case { torn_base: false, legacy_base: false, readers_wait: false, fsync_fault2: None, header_fault: Some(h), second: vec![], fsync_fault: None, chain, readers: 1, dumps: 2 }, if tier == Tier::Quick { 1 } else { 2 }));
+        v.push((C04Case { free_base: false, torn_base: false, legacy_base: false, readers_wait: false, fsync_fault2: None, header_fault: Some(h), second: vec![], fsync_fault: None, chain, readers: 1, dumps: 2 }, if tier == Tier::Quick { 1 } else { 2 }));
     }
     // two readers on different snapshots, the older one ending first, across four commits; readers
     // wait for the next commit between their dumps (a blocked thread is switched away from for free)
     for chain in if tier == Tier::Quick { vec![vec![0, 1, 0, 1, 0, 1], vec![0, 3, 5, 2, 0, 1]] } else { vec![vec![0, 1, 0, 1, 0, 1], vec![0, 3, 5, 2, 0, 1], vec![5, 2, 3, 0, 1, 0], vec![2, 5, 1, 3, 0, 2]] } {
-        v.push((C04Case { torn_base: false, legacy_base: false, readers_wait: true, fsync_fault2: None, header_fault: None, second: vec![], fsync_fault: None, chain, readers: 2, dumps: 2 }, if tier == Tier::Quick { 1 } else { 2 }));
+        v.push((C04Case { free_base: false, torn_base: false, legacy_base: false, readers_wait: true, fsync_fault2: None, header_fault: None, second: vec![], fsync_fault: None, chain, readers: 2, dumps: 2 }, if tier == Tier::Quick { 1 } else { 2 }));
     }
     // a commit that grows (and maps again) the file while a reader begins
     for chain in [vec![6, 0], vec![0, 6, 2]] {
-        v.push((C04Case { torn_base: false, legacy_base: false, readers_wait: false, fsync_fault2: None, header_fault: None, second: vec![], fsync_fault: None, chain, readers: 1, dumps: 2 }, 2));
+        v.push((C04Case { free_base: false, torn_base: false, legacy_base: false, readers_wait: false, fsync_fault2: None, header_fault: None, second: vec![], fsync_fault: None, chain, readers: 1, dumps: 2 }, 2));
     }
     // asymmetric chains of three, two readers
-    v.push((C04Case { torn_base: false, legacy_base: false, readers_wait: false, fsync_fault2: None, header_fault: None, second: vec![], fsync_fault: None, chain: vec![0, 3, 5], readers: 2, dumps: 2 }, if tier == Tier::Quick { 1 } else { 2 }));
-    v.push((C04Case { torn_base: false, legacy_base: false, readers_wait: false, fsync_fault2: None, header_fault: None, second: vec![], fsync_fault: None, chain: vec![5, 2, 3], readers: 2, dumps: 2 }, if tier == Tier::Quick { 1 } else { 2 }));
+    v.push((C04Case { free_base: false, torn_base: false, legacy_base: false, readers_wait: false, fsync_fault2: None, header_fault: None, second: vec![], fsync_fault: None, chain: vec![0, 3, 5], readers: 2, dumps: 2 }, if tier == Tier::Quick { 1 } else { 2 }));
+    v.push((C04Case { free_base: false, torn_base: false, legacy_base: false, readers_wait: false, fsync_fault2: None, header_fault: None, second: vec![], fsync_fault: None, chain: vec![5, 2, 3], readers: 2, dumps: 2 }, if tier == Tier::Quick { 1 } else { 2 }));
     if tier == Tier::Thorough {
         for a in 0..nm {
             for b in 0..nm {
                 for c in 0..nm {
-                    v.push((C04Case { torn_base: false, legacy_base: false, readers_wait: false, fsync_fault2: None, header_fault: None, second: vec![], fsync_fault: None, chain: vec![a, b, c], readers: 1, dumps: 2 }, 2));
+                    v.push((C04Case { free_base: false, torn_base: false, legacy_base: false, readers_wait: false, fsync_fault2: None, header_fault: None, second: vec![], fsync_fault: None, chain: vec![a, b, c], readers: 1, dumps: 2 }, 2));
                 }
             }
         }
-        v.push((C04Case { torn_base: false, legacy_base: false, readers_wait: false, fsync_fault2: None, header_fault: None, second: vec![], fsync_fault: None, chain: vec![0, 3, 5, 2], readers: 1, dumps: 3 }, 3));
-        v.push((C04Case { torn_base: false, legacy_base: false, readers_wait: false, fsync_fault2: None, header_fault: None, second: vec![], fsync_fault: None, chain: vec![3, 0, 2, 5], readers: 2, dumps: 2 }, 2));
+        v.push((C04Case { free_base: false, torn_base: false, legacy_base: false, readers_wait: false, fsync_fault2: None, header_fault: None, second: vec![], fsync_fault: None, chain: vec![0, 3, 5, 2], readers: 1, dumps: 3 }, 3));
+        v.push((C04Case { free_base: false, torn_base: false, legacy_base: false, readers_wait: false, fsync_fault2: None, header_fault: None, second: vec![], fsync_fault: None, chain: vec![3, 0, 2, 5], readers: 2, dumps: 2 }, 2));
     }
     v
 }
@@ -558,7 +602,7 @@ pub fn worker(idx: usize) {
         DEADLINE.with(|d| d.set(j["deadline"].as_u64()));
         emit(&format!("case {}", ci));
         match prop.as_str() {
-            "C04" | "C03" => {
+            "C04" | "C03" | "C10" => {
                 if c04_base.is_none() {
                     let cfg = Cfg { num_pages: 64, ..Cfg::default() };
                     match build_base(&path, &cfg, &c04_setup()) {
@@ -567,7 +611,7 @@ pub fn worker(idx: usize) {
                     }
                 }
                 let base = c04_base.as_ref().unwrap();
-                let cases = if prop == "C03" { c03_thread_cases(tier) } else { c04_cases(tier) };
+                let cases = if prop == "C03" { c03_thread_cases(tier) } else if prop == "C10" { c10_thread_cases(tier) } else { c04_cases(tier) };
                 let (case, bound) = &cases[ci];
                 explore_case(*bound, start, expand_only, max_sched, |prefix| c04_run(case, base, &path, prefix, policy))
             }
@@ -758,19 +802,34 @@ pub fn run(check: &mut Check, prop: &str, cases: Vec<CaseInfo>, policies: &[&str
 fn c03_thread_cases(tier: Tier) -> Vec<(C04Case, usize)> {
     let mut v = vec![];
     for chain in [vec![0, 3, 5], vec![5, 2, 3], vec![1, 0, 2], vec![2, 5, 3], vec![3, 1, 4], vec![4, 4, 0]] {
-        v.push((C04Case { torn_base: false, legacy_base: false, readers_wait: false, fsync_fault2: None, header_fault: None, second: vec![], fsync_fault: None, chain, readers: 1, dumps: 2 }, 2));
+        v.push((C04Case { free_base: false, torn_base: false, legacy_base: false, readers_wait: false, fsync_fault2: None, header_fault: None, second: vec![], fsync_fault: None, chain, readers: 1, dumps: 2 }, 2));
     }
-    v.push((C04Case { torn_base: false, legacy_base: false, readers_wait: false, fsync_fault2: None, header_fault: None, second: vec![], fsync_fault: None, chain: vec![0, 3, 5], readers: 2, dumps: 2 }, 1));
+    v.push((C04Case { free_base: false, torn_base: false, legacy_base: false, readers_wait: false, fsync_fault2: None, header_fault: None, second: vec![], fsync_fault: None, chain: vec![0, 3, 5], readers: 2, dumps: 2 }, 1));
     if tier == Tier::Thorough {
         let nm = c04_menu().len() - 1; // the growth body is used by its own cases only
         for a in 0..nm {
             for b in 0..nm {
-                v.push((C04Case { torn_base: false, legacy_base: false, readers_wait: false, fsync_fault2: None, header_fault: None, second: vec![], fsync_fault: None, chain: vec![a, b, (a + b + 1) % nm], readers: 1, dumps: 3 }, 2));
+                v.push((C04Case { free_base: false, torn_base: false, legacy_base: false, readers_wait: false, fsync_fault2: None, header_fault: None, second: vec![], fsync_fault: None, chain: vec![a, b, (a + b + 1) % nm], readers: 1, dumps: 3 }, 2));
             }
         }
-        v.push((C04Case { torn_base: false, legacy_base: false, readers_wait: false, fsync_fault2: None, header_fault: None, second: vec![], fsync_fault: None, chain: vec![5, 2, 3, 0], readers: 2, dumps: 2 }, 2));
+        v.push((C04Case { free_base: false, torn_base: false, legacy_base: false, readers_wait: false, fsync_fault2: None, header_fault: None, second: vec![], fsync_fault: None, chain: vec![5, 2, 3, 0], readers: 2, dumps: 2 }, 2));
     }
     v
+}
+
+/// The threaded supplement of C10: two writer threads and a reader on a base whose free list is
+/// much longer than what the run allocates; a writer that begins while the other one's transaction
+/// is open (and a reader is registered) must still allocate from the free list.
+fn c10_thread_cases(tier: Tier) -> Vec<(C04Case, usize)> {
+    let mut v = vec![];
+    for (chain, second) in [(vec![0, 2], vec![3]), (vec![3], vec![2, 5]), (vec![1], vec![3])] {
+        v.push((C04Case { free_base: true, torn_base: false, legacy_base: false, readers_wait: false, fsync_fault2: None, header_fault: None, second, fsync_fault: None, chain, readers: 1, dumps: 1 }, if tier == Tier::Quick { 2 } else { 3 }));
+    }
+    v
+}
+
+pub fn c10_thread_case_infos(tier: Tier) -> Vec<CaseInfo> {
+    case_infos(c10_thread_cases(tier))
 }
 
 pub fn c03_thread_case_infos(tier: Tier) -> Vec<CaseInfo> {
@@ -785,7 +844,7 @@ fn case_infos(cases: Vec<(C04Case, usize)>) -> Vec<CaseInfo> {
     let menu = c04_menu();
     cases
         .iter()
-        .map(|(c, bound)| CaseInfo { label: format!("chain{:?}{}{}-r{}-c{}", c.chain, if c.second.is_empty() { String::new() } else { format!("+w2{:?}", c.second) }, format!("{}{}{}", c.fsync_fault.map(|i| format!("-fsyncfail@{}", i)).unwrap_or_default(), c.fsync_fault2.map(|i| format!("+{}", i)).unwrap_or_default(), c.header_fault.map(|i| format!("-headerwritefail@{}", i)).unwrap_or_default()) + if c.readers_wait { "-staged-two-ages" } else { "" } + if c.legacy_base { "-legacy-format-base" } else { "" } + if c.torn_base { "-torn-slot-base" } else { "" }, c.readers, bound), describe: json!({"writer_chain": c.chain.iter().map(|&m| menu[m].iter().map(|o| o.to_json()).collect::<Vec<_>>()).collect::<Vec<_>>(), "second_writer_chain": c.second, "readers": c.readers, "dumps_per_reader": c.dumps, "preemption_bound": bound}) })
+        .map(|(c, bound)| CaseInfo { label: format!("chain{:?}{}{}-r{}-c{}", c.chain, if c.second.is_empty() { String::new() } else { format!("+w2{:?}", c.second) }, format!("{}{}{}", c.fsync_fault.map(|i| format!("-fsyncfail@{}", i)).unwrap_or_default(), c.fsync_fault2.map(|i| format!("+{}", i)).unwrap_or_default(), c.header_fault.map(|i| format!("-headerwritefail@{}", i)).unwrap_or_default()) + if c.readers_wait { "-staged-two-ages" } else { "" } + if c.legacy_base { "-legacy-format-base" } else { "" } + if c.torn_base { "-torn-slot-base" } else { "" } + if c.free_base { "-long-free-list-base" } else { "" }, c.readers, bound), describe: json!({"writer_chain": c.chain.iter().map(|&m| menu[m].iter().map(|o| o.to_json()).collect::<Vec<_>>()).collect::<Vec<_>>(), "second_writer_chain": c.second, "readers": c.readers, "dumps_per_reader": c.dumps, "preemption_bound": bound}) })
         .collect()
 }
 
@@ -804,7 +863,7 @@ pub fn replay(v: &Value) -> i32 {
     let mut seen: Vec<String> = vec![];
     for round in 0..2 {
         let (res, js): (ExecResult, Vec<Judgement>) = match prop {
-            "C04" | "C03" => {
+            "C04" | "C03" | "C10" => {
                 let cfg = Cfg { num_pages: 64, ..Cfg::default() };
                 let base = match build_base(&path, &cfg, &c04_setup()) {
                     Ok(b) => b,
@@ -813,7 +872,7 @@ pub fn replay(v: &Value) -> i32 {
                         return 2;
                     }
                 };
-                let cases = if prop == "C03" { c03_thread_cases(tier) } else { c04_cases(tier) };
+                let cases = if prop == "C03" { c03_thread_cases(tier) } else if prop == "C10" { c10_thread_cases(tier) } else { c04_cases(tier) };
                 let (r, j, _) = c04_run(&cases[ci].0, &base, &path, &prefix, policy);
                 (r, j)
             }
